@@ -716,6 +716,7 @@ def train_mrq(
                 logger.stop_episode(steps_per_episode)
             episode_idx += 1
             if total_episodes is not None and episode_idx >= total_episodes:
+                step += 1
                 break
             if logger is not None:
                 logger.start_new_episode()
